@@ -424,6 +424,9 @@ def run(chk, ctx):
 
 def supporting(chk, P):
     stmt_arm_rule(chk, P)
+    # rows are evaluated in the real variable map: the exchange made for virtual signals is undone on every path
+    from .iter_rules import swap_pair_rule
+    swap_pair_rule(chk, P)
     # FramedMap discipline
     st = P.body(FM + "set")
     if chk.anchor("FramedMap::set", st):
